@@ -32,11 +32,11 @@ def gen_history(rng, length):
                          2, 2, 1, 2, 2, 3, 0.5, 0.5, 0.5])[0]
         op = {'m': m, 'now': 1000}
         if m in ('append', 'appendleft', 'setitem'):
-            op['v'] = rng.choice(VALS) if (rng.random() > 0.04 or m == 'setitem') else UNSTORABLE
+            op['v'] = rng.choice(VALS) if rng.random() > 0.04 else UNSTORABLE
         if m in ('count', 'remove'):
             op['v'] = rng.choice(VALS + EQUAL_SPELLINGS)
         if m in ('extend', 'extendleft', 'iadd'):
-            op['vs'] = [rng.choice(VALS) for _ in range(rng.randint(0, 4))]
+            op['vs'] = [(rng.choice(VALS) if rng.random() > 0.03 else UNSTORABLE) for _ in range(rng.randint(0, 4))]
         if m == 'cmp':
             # mostly the deque's own contents with one element / the length perturbed
             op['op'] = rng.choice(['eq', 'ne', 'lt', 'gt', 'le', 'ge'])
@@ -52,6 +52,16 @@ def gen_history(rng, length):
         ops.append(op)
     ops.append({'m': 'iter', 'now': 1000})
     return {'cls': 'deque', 'cfg': cfg, 'ops': ops, 'state_every': 4}
+
+
+def storable_prefix(vs):
+    """the values before the first one that cannot be stored (the loop stops there)"""
+    out = []
+    for v in vs:
+        if v == UNSTORABLE:
+            break
+        out.append(v)
+    return out
 
 
 def apply_mirror(d, op, rng):
@@ -82,9 +92,9 @@ def apply_mirror(d, op, rng):
         elif m == 'maxlen':
             d = collections.deque(d, maxlen=op['i'])
         elif m in ('extend', 'iadd'):
-            d.extend(op['vs'])
+            d.extend(storable_prefix(op['vs']))
         elif m == 'extendleft':
-            d.extendleft(op['vs'])
+            d.extendleft(storable_prefix(op['vs']))
         elif m == 'remove':
             d.remove(op['v'])
         elif m == 'cmp':
@@ -153,10 +163,15 @@ def acceptor(hist, io):
                 d.clear(); want = 'n'
             elif m == 'maxlen':
                 d = collections.deque(d, maxlen=op['i']); want = 'n'
-            elif m in ('extend', 'iadd'):
-                d.extend(op['vs']); want = 'n'
-            elif m == 'extendleft':
-                d.extendleft(op['vs']); want = 'n'
+            elif m in ('extend', 'iadd', 'extendleft'):
+                pre = storable_prefix(op['vs'])
+                if m == 'extendleft':
+                    d.extendleft(pre)
+                else:
+                    d.extend(pre)
+                # the loop stops at a value that cannot be stored: the exception propagates, the
+                # values before it stay
+                want = 'n' if len(pre) == len(op['vs']) else '!UnicodeEncodeError'
             elif m == 'count':
                 want = 'i%d' % d.count(op['v'])
             elif m == 'remove':
